@@ -5,7 +5,10 @@ import (
 	"testing"
 	"time"
 
+	"github.com/idena-network/idena-go/blockchain/attachments"
 	"github.com/idena-network/idena-go/blockchain/types"
+	"github.com/idena-network/idena-go/blockchain/validation"
+	"github.com/idena-network/idena-go/common"
 	"github.com/idena-network/idena-go/consensus"
 	"github.com/idena-network/idena-go/stats/collector"
 	dbm "github.com/tendermint/tm-db"
@@ -38,29 +41,82 @@ func runCrashing(op func()) (crashed bool, other interface{}) {
 	return false, nil
 }
 
+// switchOnlineStatus offers an online status switch of a validated identity to every pool (mined by the next block,
+// applied by the next identity-update block).
+func switchOnlineStatus(t *rapid.T, h *sim.History) {
+	base := h.W.Replicas[0]
+	st := base.ReadState()
+	var validated []*sim.Actor
+	for _, a := range h.W.Actors {
+		if st.ValidatorsCache.IsValidated(a.Addr) {
+			validated = append(validated, a)
+		}
+	}
+	if len(validated) == 0 || rapid.IntRange(0, 3).Draw(t, "noSwitch") == 0 {
+		return
+	}
+	a := validated[rapid.IntRange(0, len(validated)-1).Draw(t, "switcher")]
+	tx, err := types.SignTx(&types.Transaction{Type: types.OnlineStatusTx, Epoch: st.State.Epoch(), AccountNonce: base.AppState.NonceCache.GetNonce(a.Addr, st.State.Epoch()) + 1,
+		MaxFee: sim.Dna(100), Payload: attachments.CreateOnlineStatusAttachment(!st.ValidatorsCache.IsOnlineIdentity(a.Addr))}, a.Key)
+	if err != nil {
+		return
+	}
+	for _, r := range h.W.Replicas {
+		r.Pool.AddExternalTxs(validation.MempoolTx, sim.WireCopyTx(tx))
+	}
+	evid.Count("steer.online_status_switch_offered")
+}
+
 // A crash at any storage write during block insertion or reset-to-height
 // leaves a node that restarts into a consistent chain and then follows the
-// never-crashed twin.
+// never-crashed twin: by the same next blocks, and (routes_test.go) by every
+// other route a node takes to move on: the fork resolver and the full sync
+// with a different honest block at the interrupted height, and a fast sync.
 func TestCrashAtEveryWrite(t *testing.T) {
 	rapid.Check(t, func(t *rapid.T) {
 		// prefix + 4 more blocks on the never-crashed twin
 		prefix := rapid.IntRange(3, 14).Draw(t, "prefix")
-		var preImage dbm.DB
-		var preHead uint64
-		opt := sim.Options{MinActors: 3, MaxActors: 8, Replicas: 1, MaxReplicas: 3, Steps: prefix + 4, MaxTxPerStep: 6}
+		// steered histories (one of two): validated identities keep switching their online status, so that blocks that
+		// change the identity state (and with it the validator set) are frequent, and the interrupted block is the
+		// first of up to four candidates that has an identity state diff
+		steer := rapid.Bool().Draw(t, "steerIdentityChanges")
+		slack := 0
+		if steer {
+			slack = 3
+		}
+		images := map[int]dbm.DB{}
+		heads := map[int]uint64{}
+		opt := sim.Options{MinActors: 3, MaxActors: 8, Replicas: 1, MaxReplicas: 3, Steps: prefix + slack + 4, MaxTxPerStep: 6}
+		// the committee certifies every block (votes are cast before the block is inserted)
+		certs := map[common.Hash]*types.BlockCert{}
+		opt.BeforeDeliver = func(h *sim.History, proposer *sim.Replica, blk *types.Block) bool {
+			certs[blk.Hash()] = h.W.MakeCert(h.W.Replicas[0], blk, sim.CertValid)
+			return true
+		}
 		opt.BetweenBlocks = func(h *sim.History) {
-			if len(h.Blocks) == prefix && preImage == nil {
-				preImage = sim.CopyDB(h.W.Replicas[0].DB)
-				preHead = h.W.Replicas[0].Head().Height()
+			if steer {
+				switchOnlineStatus(t, h)
+			}
+			if i := len(h.Blocks); i >= prefix && i <= prefix+slack && images[i] == nil {
+				images[i] = sim.CopyDB(h.W.Replicas[0].DB)
+				heads[i] = h.W.Replicas[0].Head().Height()
 			}
 		}
 		h := sim.RunHistory(t, opt)
 		w := h.W
 		twin := w.Replicas[0]
+		at := prefix
+		for i := prefix; i <= prefix+slack; i++ {
+			if images[i] != nil && i < len(h.Blocks) && !twin.Chain.GetIdentityDiff(h.Blocks[i].Height()).Empty() {
+				at = i
+				break
+			}
+		}
+		preImage, preHead := images[at], heads[at]
 		if preImage == nil {
 			t.Fatalf("no pre-image")
 		}
-		next := h.Blocks[prefix:] // interrupted block and the three after it
+		next := h.Blocks[at:] // interrupted block and the (at least three) blocks after it
 		interrupted := next[0]
 		scenario := rapid.SampledFrom([]string{"AddBlock", "AddBlock", "AddBlock", "ResetTo"}).Draw(t, "scenario")
 		resetDepth := 0
@@ -106,6 +162,25 @@ func TestCrashAtEveryWrite(t *testing.T) {
 		evid.CountN("writes.total", W)
 		if W == 0 {
 			t.Fatalf("operation %s issued no write", class)
+		}
+		// the routes offered to every restarted node besides the same next blocks: an honest alternative branch that
+		// leaves the twin's chain right after the height the operation ends at when nothing is applied / everything is
+		// rolled back (a different block at the interrupted height), and fast syncs
+		certEvery := rapid.IntRange(1, 3).Draw(t, "certEvery")
+		rt := &routes{w: w, like: twin, fsBack: rapid.IntRange(0, 2).Draw(t, "fastSyncBack"), context: func() string {
+			return fmt.Sprintf("writes: %v\nhistory:\n%s", writeLog, h.Summary())
+		}}
+		rt.twin = &peerChain{name: "twin", src: twin, certs: certs, certEvery: certEvery}
+		altBase, ownMax := preImage, 1
+		rt.common = preHead
+		if scenario == "ResetTo" {
+			altBase, ownMax = dry.Image(), resetDepth
+			rt.common = preHead - uint64(resetDepth)
+		}
+		rt.alt, rt.altBundles = buildAlt(t, w, altBase, twin, ownMax+1+rapid.IntRange(0, 1).Draw(t, "altExtra"), certEvery)
+		interruptedDiff := scenario == "AddBlock" && !twin.Chain.GetIdentityDiff(interrupted.Height()).Empty()
+		if interruptedDiff {
+			evid.Count("scenario.AddBlock.with_identity_diff")
 		}
 		// every crash point 1..W, and W+1 = clean completion followed by a restart
 		for k := 1; k <= W+1; k++ {
@@ -170,6 +245,7 @@ func TestCrashAtEveryWrite(t *testing.T) {
 			if r.Head().Hash() != twin.Head().Hash() || r.AppState.State.Root() != twin.AppState.State.Root() || r.AppState.IdentityState.Root() != twin.AppState.IdentityState.Root() {
 				t.Fatalf("restarted node does not reach the twin's head/state after %s", where)
 			}
+			rt.run(t, cdb.Image(), where, interruptedDiff)
 			if k > 1 && k <= W {
 				bucket := (k * 4) / (W + 1)
 				evid.NonTrivial(fmt.Sprintf("%s|q%d|%s", class, bucket, writeLog[k-1][:3]))
@@ -207,16 +283,34 @@ func TestCrashDuringForkSwitch(t *testing.T) {
 				evid.Count("fork.rollback_to_genesis")
 			}
 		}
+		commonHeight := base.Head().Height()
+		certEvery := rapid.IntRange(1, 3).Draw(t, "certEvery")
+		ownPeer := &peerChain{name: "own", src: own, certs: map[common.Hash]*types.BlockCert{}, certEvery: certEvery}
+		forkPeer := &peerChain{name: "fork", src: forkSide, certs: map[common.Hash]*types.BlockCert{}, certEvery: certEvery}
+		var backBundles []types.BlockBundle
+		extendOwn := func() {
+			blk, cert := w.Extend(t, own, nil, func(blk *types.Block) *types.BlockCert { return w.MakeCert(own, blk, sim.CertValid) })
+			ownPeer.certs[blk.Hash()] = cert
+			backBundles = append(backBundles, types.BlockBundle{Block: blk, Cert: cert})
+		}
 		for i := 0; i < ownLen; i++ {
-			w.Extend(t, own, nil, nil)
+			extendOwn()
 		}
 		forkLen := ownLen + rapid.IntRange(1, 3).Draw(t, "forkExtra")
 		var bundles []types.BlockBundle
 		for i := 0; i < forkLen; i++ {
 			blk, cert := w.Extend(t, forkSide, nil, func(blk *types.Block) *types.BlockCert { return w.MakeCert(forkSide, blk, sim.CertValid) })
+			forkPeer.certs[blk.Hash()] = cert
 			bundles = append(bundles, types.BlockBundle{Block: blk, Cert: cert})
 		}
 		preImage := sim.CopyDB(own.DB)
+		// after the image was taken the own branch grows beyond the fork (on the node that never crashed): the way back,
+		// i.e. a different block at every height the interrupted switch was writing
+		for i := ownLen; i < forkLen+1; i++ {
+			extendOwn()
+		}
+		fsBack := rapid.IntRange(0, 2).Draw(t, "fastSyncBack")
+		rt := &routes{w: w, like: own, context: func() string { return h.Summary() }}
 		switchFork := func(n *sim.Replica) error {
 			resolver := consensus.NewForkResolver(nil, nil, n.Chain, collector.NewStatsCollector())
 			if err := resolver.VerifProcessBlocks(bundles); err != nil {
@@ -293,6 +387,38 @@ func TestCrashDuringForkSwitch(t *testing.T) {
 			if r.Head().Hash() != forkSide.Head().Hash() || r.AppState.State.Root() != forkSide.AppState.State.Root() || r.AppState.IdentityState.Root() != forkSide.AppState.IdentityState.Root() {
 				t.Fatalf("restarted node does not reach the fork tip state after %s", where)
 			}
+			// the other routes from the same image: back to the (now longer) own branch by the fork resolver, and a
+			// fast sync along the chain(s) the restarted head is on
+			{
+				nb := rt.start(t, cdb.Image(), "back", where)
+				restartHead := nb.Head()
+				hh := restartHead.Height()
+				identityAhead := nb.AppState.IdentityState.HasVersion(hh + 1)
+				for x := hh + 1; x <= commonHeight; x++ {
+					if err := nb.AddBlock(base.Chain.GetBlockByHeight(x)); err != nil {
+						t.Fatalf("restarted node refuses block %d after %s: %v", x, where, err)
+					}
+				}
+				rt.forkTo(t, nb, backBundles, commonHeight, own, where+", then back to the longer own branch")
+				evid.Count("route.fork_switch.back_to_longer_own_branch")
+				if onFork && hh > commonHeight {
+					evid.Count("route.fork_switch.back_from_a_partly_applied_fork")
+				}
+				for _, p := range []*peerChain{forkPeer, ownPeer} {
+					if !p.has(restartHead) || p.tip() <= hh {
+						continue
+					}
+					target := p.tip() - uint64(fsBack)
+					if target <= hh {
+						target = p.tip()
+					}
+					rt.fastSyncTo(t, cdb.Image(), p, target, where+", then fast sync along the "+p.name+" branch")
+					evid.Count("route.fork_switch.fastsync." + p.name)
+					if identityAhead {
+						evid.Count("route.fork_switch.fastsync.identity_tree_ahead_of_head")
+					}
+				}
+			}
 			if k > 1 && k <= W {
 				evid.NonTrivial(fmt.Sprintf("ApplyFork|own=%d|fork=%d|q%d|%s", ownLen, forkLen, (k*4)/(W+1), writeLog[k-1][:3]))
 				evid.Count("crash.inside_fork_switch")
@@ -319,6 +445,11 @@ func crashDuringFastSync(t *testing.T, minSteps, maxSteps, maxTx, earlySamples i
 		earlyAt := rapid.IntRange(0, 4).Draw(t, "syncFrom")
 		var early dbm.DB
 		opt := sim.Options{MinActors: 3, MaxActors: 7, Replicas: 1, MaxReplicas: 3, Steps: steps, MaxTxPerStep: maxTx}
+		certs := map[common.Hash]*types.BlockCert{}
+		opt.BeforeDeliver = func(h *sim.History, proposer *sim.Replica, blk *types.Block) bool {
+			certs[blk.Hash()] = h.W.MakeCert(h.W.Replicas[0], blk, sim.CertValid)
+			return true
+		}
 		opt.BetweenBlocks = func(h *sim.History) {
 			if len(h.Blocks) == earlyAt && early == nil {
 				early = sim.CopyDB(h.W.Replicas[0].DB)
@@ -357,6 +488,14 @@ func crashDuringFastSync(t *testing.T, minSteps, maxSteps, maxTx, earlySamples i
 		}
 		for i := 0; i < earlySamples && switchAt > 0; i++ {
 			points[rapid.IntRange(1, switchAt).Draw(t, "earlyPoint")] = true
+		}
+		// a node that restarts at its old head goes on with a fast sync again (resumed from the stored preliminary head, or
+		// from scratch), to the same snapshot or to a later one
+		rt := &routes{w: w, like: like, context: func() string { return h.Summary() }}
+		srcPeer := &peerChain{name: "source", src: src, certs: certs, certEvery: rapid.IntRange(1, 3).Draw(t, "certEvery")}
+		againTo := target
+		if rapid.Bool().Draw(t, "laterSnapshot") {
+			againTo = src.Head().Height()
 		}
 		for k := 1; k <= W+1; k++ {
 			if !points[k] {
@@ -412,6 +551,13 @@ func crashDuringFastSync(t *testing.T, minSteps, maxSteps, maxTx, earlySamples i
 			}
 			if r.Head().Hash() != src.Head().Hash() || r.AppState.State.Root() != src.AppState.State.Root() || r.AppState.IdentityState.Root() != src.AppState.IdentityState.Root() {
 				t.Fatalf("restarted node does not reach the source's head/state after %s", where)
+			}
+			if hh == oldHead {
+				st := rt.fastSyncTo(t, cdb.Image(), srcPeer, againTo, where+", then fast sync again")
+				evid.Count("route.fast_sync_again")
+				if !st.fresh {
+					evid.Count("route.fast_sync_again.resumed_from_preliminary_head")
+				}
 			}
 			if k <= W {
 				evid.NonTrivial(fmt.Sprintf("FastSync|%s|%d|%s", phase, (k*8)/(W+1), writeLog[k-1][:3]))
